@@ -46,7 +46,11 @@ RULE = ("finite catalogue of call sites (name -> argument builders + call) cross
         "depth 2 (3 thorough) containing at least one state-changing operation before its last step, on three "
         "flow-direction grids (plain, with an inlet, ring whose filled area is larger), each on a fresh "
         "catchment; after every step all queries with fixed arguments are observed again and must equal the "
-        "observations taken right after delineate_area (derived state from its first appearance).")
+        "observations taken right after delineate_area (derived state from its first appearance). Pair histories: "
+        "for each module (metrics, sutils, armodels, transform, dutils, qualitycontrol, signatures, gutils, grid) "
+        "every ordered pair (S2, S1) of its call sites (option variants included) is executed back to back in one "
+        "process on freshly built arguments; every result must equal the site's reference result, obtained as the "
+        "first library call of a freshly forked process.")
 ASSUMPTIONS = [
     "the catalogue lists the functions of the modules named by the property that accept numeric array-like data; pure scalar helpers (ppos, oz_timezone, compute_percentiles), plotting decorators without data arguments and file I/O (Grid.save/load) are not call sites",
     "arguments documented as output buffers are exempt (gutils.points_inside_polygon(inside=...)); methods whose purpose is to change their object (Grid.data setter, Grid.__setitem__, Catchment.delineate_*) may change self, their array arguments are still watched",
@@ -700,6 +704,10 @@ def build_catalogue():
     add("qualitycontrol.islinear", lambda n, s, lay: {"data": A(np.cumsum(pos(n, s) // 4))},
         lambda a: qualitycontrol.islinear(a["data"], npoints=1))
     add("signatures.eckhardt", lambda n, s, lay: {"flow": A(pos(n, s))}, lambda a: signatures.eckhardt(a["flow"]))
+    add("signatures.eckhardt[hourly]", lambda n, s, lay: {"flow": A(pos(n, s))},
+        lambda a: signatures.eckhardt(a["flow"], timestep_type=0))
+    add("signatures.eckhardt[tau=50,thresh=0.5]", lambda n, s, lay: {"flow": A(pos(n, s))},
+        lambda a: signatures.eckhardt(a["flow"], thresh=0.5, tau=50, BFI_max=0.5))
     add("signatures.fdcslope", lambda n, s, lay: {"x": A(pos(n, s))}, lambda a: signatures.fdcslope(a["x"], q1=20, q2=90))
     add("signatures.fdcslope[Log]", lambda n, s, lay: {"x": A(pos(n, s))},
         lambda a: signatures.fdcslope(a["x"], q1=20, q2=90, trans=transform.Log()))
@@ -1047,6 +1055,8 @@ def compare_snapshots(ctx, site, case, before, watched, icall, tag, reported, wh
 
 
 def run_case(ctx, site, case):
+    if case.get("history") == "pair":
+        return run_pairs(ctx, case["group"], "thorough", case["seed"], only=case["pair"])
     if case.get("history") == "object":
         return run_case_object(ctx, site, case)
     if case.get("history") == 3:
@@ -1417,6 +1427,111 @@ def run_case_object(ctx, site, case):
     ctx.count("object-history.depth=%d" % len(case["ops"]))
 
 
+# --------------------------------------------------------------------- pair histories inside one module
+# every ordered pair (S2, S1) of call sites of one module (option variants of a function included) is executed
+# back to back in one process; the result of every call must equal the reference result of its site, obtained
+# as the FIRST library call of a freshly forked process: whatever one call leaves behind at module, class or C
+# static level (a memo keyed on part of the arguments, a shared work buffer) shows as a difference.
+PAIR_SITE = "history[pairs:%s]"
+PAIR_GROUPS = ["metrics", "sutils", "armodels", "transform", "dutils", "qualitycontrol", "signatures", "gutils", "grid"]
+PAIR_N = 12
+
+
+def pair_group_sites(group, tier):
+    out = [x for x in all_sites(tier) if x.name.startswith(group + ".") and x.name != OBJ_SITE
+           and (x.layouts is None or "c64" in x.layouts)]
+    return out
+
+
+def pair_base_case(site, seed):
+    return {"site": site.name, "layout": "c64", "n": PAIR_N, "seed": seed, "nan": False}
+
+
+def pair_call(site, seed):
+    pr = prepare(site, pair_base_case(site, seed))
+    if pr is None:
+        return None
+    np.random.seed(RSEED + seed)
+    try:
+        return ("ok", site.call(pr[0]))
+    except Exception as e:
+        return ("raise", type(e).__name__)
+
+
+def fresh_reference(site, seed):
+    """result of the site when it is the first library call of a freshly forked process (None: not transferable)"""
+    import os
+    rfd, wfd = os.pipe()
+    pid = os.fork()
+    if pid == 0:
+        code = 1
+        try:
+            os.close(rfd)
+            r = pair_call(site, seed)
+            blob = pickle.dumps(r, protocol=4)
+            with os.fdopen(wfd, "wb") as f:
+                f.write(blob)
+            code = 0
+        except BaseException:
+            code = 1
+        finally:
+            os._exit(code)
+    os.close(wfd)
+    with os.fdopen(rfd, "rb") as f:
+        blob = f.read()
+    _, status = os.waitpid(pid, 0)
+    if status != 0 or not blob:
+        return None
+    try:
+        return pickle.loads(blob)
+    except Exception:
+        return None
+
+
+def run_pairs(ctx, group, tier, seed, only=None):
+    sites = pair_group_sites(group, tier)
+    refs = {}
+    for x in sites:
+        r = fresh_reference(x, seed)
+        if r is None:
+            ctx.count("pair-history.site-without-transferable-result")
+            continue
+        refs[x.name] = r
+    sites = [x for x in sites if x.name in refs]
+    npairs = 0
+
+    def judge(x, r, prev):
+        ref = refs[x.name]
+        ctx.transitions += 1
+        if r[0] != ref[0] or (r[0] == "raise" and r[1] != ref[1]):
+            st, where = "diff", "outcome"
+        elif r[0] == "ok":
+            st, where = requal(ref[1], r[1])
+        else:
+            st = "same"
+        if st == "diff":
+            k = "%s:pair-history:differs-from-fresh-process" % x.name
+            case = {"site": PAIR_SITE % group, "layout": "c64", "n": PAIR_N, "seed": seed, "nan": False,
+                    "history": "pair", "group": group, "pair": [prev.name, x.name]}
+            ctx.violation(k, case, "%s called right after %s does not return what it returns as the first call of a fresh "
+                                   "process (at %s)" % (x.name, prev.name, where))
+    for s2 in sites:
+        for s1 in sites:
+            if only is not None and [s2.name, s1.name] != only:
+                continue
+            r2 = pair_call(s2, seed)
+            r1 = pair_call(s1, seed)
+            if r2 is None or r1 is None:
+                continue
+            npairs += 1
+            judge(s1, r1, s2)
+            ctx.case(r1[0] == "ok", outcome=("pair", s1.name, outcome_hash(r1[1]) if r1[0] == "ok" else r1[1]))
+    ctx.states += len(sites)
+    ctx.traces += npairs
+    ctx.count("pair-history.pairs", npairs)
+    ctx.count("pair-history.sites", len(sites))
+
+
 # --------------------------------------------------------------------- units
 def cases_of(site, tier, seed):
     if site.name == OBJ_SITE:
@@ -1456,10 +1571,15 @@ def cases_of(site, tier, seed):
 
 
 def units(tier, seed):
-    return [{"site": s.name, "tier": tier, "seed": seed} for s in all_sites(tier)]
+    return [{"site": s.name, "tier": tier, "seed": seed} for s in all_sites(tier)] + \
+           [{"site": PAIR_SITE % g, "pairs": g, "tier": tier, "seed": seed} for g in PAIR_GROUPS]
 
 
 def run_unit(unit, ctx):
+    if unit.get("pairs"):
+        ctx.case(False, n=0, sample={"site": unit["site"], "group": unit["pairs"], "history": "pair"})
+        run_pairs(ctx, unit["pairs"], unit["tier"], unit["seed"])
+        return
     site = find_site(unit["site"])
     first = True
     for case in cases_of(site, unit["tier"], unit["seed"]):
@@ -1472,5 +1592,5 @@ def run_unit(unit, ctx):
 def replay(case):
     from mc.explore import Result
     ctx = Result()
-    run_case(ctx, find_site(case["site"]), case)
+    run_case(ctx, None if case.get("history") == "pair" else find_site(case["site"]), case)
     return [v for lst in ctx.violations.values() for v in lst]
